@@ -1,0 +1,36 @@
+//go:build verif
+
+package file
+
+import (
+	"crypto"
+
+	"github.com/edutko/putty-go/putty"
+	"golang.org/x/crypto/ssh"
+)
+
+// Verification hooks for property C02 (see /verif). Not compiled without the "verif" build tag.
+
+func VerifParsePKCS1PublicKey(der []byte) (Info, error)     { return parsePKCS1PublicKey(der) }
+func VerifParsePKIXPublicKey(der []byte) (Info, error)      { return parsePKIXPublicKey(der) }
+func VerifParsePKCS8PrivateKey(der []byte) (Info, error)    { return parsePKCS8PrivateKey(der) }
+func VerifParseECPrivateKey(der []byte) (Info, error)       { return parseECPrivateKey(der) }
+func VerifParsePKCS1PrivateKey(der []byte) (Info, error)    { return parsePKCS1PrivateKey(der) }
+func VerifParseDSAPrivateKey(der []byte) (Info, error)      { return parseDSAPrivateKey(der) }
+func VerifParseDSAParameters(der []byte) (Info, error)      { return parseDSAParameters(der) }
+func VerifParseECParameters(der []byte) (Info, error)       { return parseECParameters(der) }
+func VerifParseOpenSSHPrivateKey(b []byte) (Info, error)    { return parseOpenSSHPrivateKey(b) }
+func VerifParseKdfOptions(o []byte) ([]byte, uint32, error) { return parseKdfOptions(o) }
+
+func VerifCryptoPublicKeyAttributes(k crypto.PublicKey) []Attribute {
+	return cryptoPublicKeyAttributes(k)
+}
+func VerifSSHPublicKeyAttributes(pub ssh.PublicKey, comment string) []Attribute {
+	return sshPublicKeyAttributes(pub, comment)
+}
+func VerifPuttyPublicKeyAttributes(pub putty.PublicKey) []Attribute {
+	return puttyPublicKeyAttributes(pub)
+}
+func VerifSSH1PublicKeyAttributes(pub crypto.PublicKey, comment string) []Attribute {
+	return ssh1PublicKeyAttributes(pub, comment)
+}
